@@ -91,12 +91,16 @@ func (d *Document) BlockStringValueContentBytes(ref int) []byte {
 	}
 
 	// find first non-whitespace-only line
-	firstLine := 0
+	firstLine := len(lines)
 	for i, line := range lines {
 		if leadingWhitespaceCount(line) != len(line) {
 			firstLine = i
 			break
 		}
+	}
+	if firstLine == len(lines) {
+		// every line is blank: the value is the empty string
+		return nil
 	}
 
 	// find last non-whitespace-only line
